@@ -49,7 +49,7 @@ impl Prop for C08 {
     }
     fn components(&self) -> Value {
         json!({"real": ["sentinel-core: EntryBuilder, slot chain, flow manager/slot, WarmUpCalculator, RejectChecker, resource node sliding window"],
-               "stub": ["clock (virtual, hook H1)", "getrandom (seeded)", "logger (none)"]})
+               "stub": ["clock (virtual, hook H1)", "getrandom (seeded)", "logger (a sink that formats every record of the library and discards it)"]})
     }
 
     fn generate(&self, rng: &mut Rng, slot_ns: u64, _avoid: bool) -> Value {
